@@ -8,7 +8,7 @@ import gen, lang, meta, findings
 from props import c04, c05
 
 PROP_FILE = 'Props/C13.v'
-GROUPS = ['imain']
+GROUPS = ['imain', 'theory']
 LEAF_LEMMAS = []
 ASSUMPTIONS = ['gringo/clasp contract G1-G6 (DESIGN.md 5.3)']
 
